@@ -694,13 +694,25 @@ def _t10(repo, L):
 
 
 def _t7(L, parser: Func, lp, col):
-    ifs = [n for n in walk_shallow(lp) if isinstance(n, ast.If) and isinstance(n.test, ast.Compare) and len(n.test.ops) == 1 and isinstance(n.test.ops[0], ast.NotEq) and ftxt(parser, n.test.left) == f"fields[{col}]"]
+    def _is_col(e):
+        return ftxt(parser, e) == f"fields[{col}]"
+
+    ifs = [n for n in walk_shallow(lp) if isinstance(n, ast.If) and isinstance(n.test, ast.Compare) and len(n.test.ops) == 1 and isinstance(n.test.ops[0], ast.NotEq) and (_is_col(n.test.left) or _is_col(n.test.comparators[0]))]
     ok, why = False, f"no `fields[{col}] != <current name>` scaffold switch"
     if len(ifs) == 1:
         iff = ifs[0]
-        cur = norm(iff.test.comparators[0])
+        cur_e = iff.test.comparators[0] if _is_col(iff.test.left) else iff.test.left
+        cur = norm(cur_e)
         body = [ftxt(parser, s) for s in iff.body]
         sets_cur = any(b == f"{cur} = fields[{col}]" for b in body)
+        if not sets_cur and isinstance(cur_e, ast.Name):
+            # the current name is read off the current scaffold:  cur = S.name if S else ''   and the body rebinds S
+            from ..util import local_defs as _ld
+
+            ds = _ld(parser, cur_e.id)
+            if len(ds) == 1 and isinstance(ds[0], ast.IfExp) and isinstance(ds[0].test, ast.Name) and norm(ds[0].body) == f"{ds[0].test.id}.name" and isinstance(ds[0].orelse, ast.Constant) and ds[0].orelse.value in ("", None):
+                sv_ = ds[0].test.id
+                sets_cur = any(isinstance(s_, ast.Assign) and any(isinstance(t_, ast.Name) and t_.id == sv_ for t_ in s_.targets) and isinstance(s_.value, ast.Call) and dotted(s_.value.func) == "Scaffold" and s_.value.args and _is_col(s_.value.args[0]) for s_ in iff.body)
         new_sc = any(isinstance(s, ast.Assign) and isinstance(s.value, ast.Call) and dotted(s.value.func) == "Scaffold" and ftxt(parser, s.value.args[0]) in (cur, f"fields[{col}]") for s in iff.body)
         added = any("add_scaffold(" in b for b in body)
         ok = sets_cur and new_sc and added and not iff.orelse
